@@ -178,6 +178,18 @@ fn run_inner(req: &str) -> Option<String> {
                 _ => okhex(h.decrypt_aes(&data, &key, &id)),
             }
         }
+        // the digest crates the library calls (md5::compute, sha2::Sha256/384/512::digest), directly
+        "hash" => {
+            use sha2::Digest;
+            let d = unhex(f.get(2)?)?;
+            match *f.get(1)? {
+                "md5" => hex(&md5::compute(&d).0),
+                "sha256" => hex(&sha2::Sha256::digest(&d)),
+                "sha384" => hex(&sha2::Sha384::digest(&d)),
+                "sha512" => hex(&sha2::Sha512::digest(&d)),
+                _ => return None,
+            }
+        }
         "h2b" => okhex(compute_hash_r6_algorithm_2b(&unhex(f.get(1)?)?, &unhex(f.get(2)?)?, &unhex(f.get(3)?)?)),
         "uent" => {
             // U entry with random salts
@@ -693,6 +705,18 @@ fn gen(rng: &mut Rng, tier: Tier) -> Vec<Case> {
         } else {
             out.push(Case::new(format!("decstr {} {} {} {} {} {}", rev, n, hex(&key), num, g, hex(&data)), format!("decstr {}", tag)));
             out.push(Case::new(format!("encaes {} {} {} {} {} {}", rev, n, hex(&key), num, g, hex(&data)), format!("encaes wrong-rev {}", tag)));
+        }
+    }
+
+    // ---- hash functions at their padding boundaries (block 64: 55/56/63/64; block 128: 111/112/127/128)
+    for alg in ["md5", "sha256", "sha384", "sha512"] {
+        let mut lens: Vec<usize> = vec![0, 1, 3, 54, 55, 56, 57, 63, 64, 65, 110, 111, 112, 113, 119, 120, 127, 128, 129, 183, 184, 239, 240, 256];
+        for _ in 0..2 * scale {
+            lens.push(rng.range(2, 700) as usize);
+        }
+        for n in lens {
+            let d = rng.bytes(n);
+            out.push(Case::new(format!("hash {} {}", alg, hex(&d)), format!("hash {} len-class{}{}", alg, n.min(300) / 32, if n > 0 { " nt" } else { "" })));
         }
     }
 
